@@ -21,8 +21,10 @@ using sim::strf;
 
 extern "C" void __sanitizer_cov_trace_pc_guard(uint32_t *guard) { sim::cov_hit(*guard); }
 extern "C" void __sanitizer_cov_trace_pc(void) {}  // basic-block callback of the gcc-built library (second build): unused here
-#ifdef REC_VARIANT_GCC
+#if defined(REC_VARIANT_GCC)
 #define REC_ENGINE_NAME "recg"
+#elif defined(REC_VARIANT_O0)
+#define REC_ENGINE_NAME "reco"
 #else
 #define REC_ENGINE_NAME "rec"
 #endif
@@ -132,6 +134,10 @@ static std::string gen(const std::string &prop, uint64_t base, uint64_t idx, boo
         if (r.chance(0.4)) cur = (int)r.below(bufs.size());
         const B &b = bufs[cur];
         const BindFormat *f = b.f;
+        if (r.chance(0.06)) {
+            const BindField *cfl = &f->fields[r.below(f->nfields)];
+            if (cfl->ncset) { line(strf("op b=%d setc f=%s k=%u", b.id, cfl->name, (unsigned)r.below(cfl->ncset))); written[b.id].push_back(cfl->name); continue; }
+        }
         if (b.pay >= 68 && r.chance(0.12)) {
             // the ACF-CAN message builders are compound writes: payload copy, identifier/EFF/FDF, length and pad fields, zeroed padding
             static const char *kinds[] = {"create", "create", "setpayload", "finalize"};
@@ -454,6 +460,20 @@ static void exec(const std::string &text, bool verbose) {
             if (with_init) b.wr_seq.clear();
             continue;
         }
+        if (what == "setc") {
+            const BindField *fl = find_field(f, kv.str("f"));
+            if (!fl || !fl->ncset) continue;
+            unsigned k = (unsigned)kv.u64("k") % fl->ncset;
+            uint64_t v = fl->cval[k];
+            ev("setc", strf("b=%d %s.%s v=0x%llx", b.id, f->name, fl->name, (unsigned long long)v));
+            fl->cset[k](pdu);
+            wire::set_bits(mpdu, fl->bit, fl->width, v & mask_w(fl->width));
+            per_entry["entry.set.constant"]++;
+            check_bytes(strf("%s.%s:ded-const", f->name, fl->name), strf("after writing the constant 0x%llx to %s.%s through the dedicated setter", (unsigned long long)v, f->name, fl->name));
+            b.has_last = false;
+            b.wr_seq[fl->name] = op_index; b.wr_task_seq[fl->name] = task_switches; b.wr_via[fl->name] = "ded";
+            continue;
+        }
         if (what == "build") {
             std::string fmt = f->name, kind = kv.str("kind");
             bool brief = fmt == "CanBrief";
@@ -603,7 +623,7 @@ int main(int argc, char **argv) {
              "write to a different field of the same quadlet";
     e.probes = {"probe.cross_quadlet_field_written", "probe.value_wider_than_field", "probe.relocation_between_write_and_read", "probe.legacy_write_current_read",
                 "probe.task_switch_between_write_and_read", "probe.acf_message_inside_control_pdu", "probe.second_view_of_same_header", "entry.set.gen", "entry.set.ded", "entry.set.leg",
-                "entry.get.gen", "entry.get.ded", "entry.get.leg", "entry.init.cur", "entry.init.legacy", "entry.fused", "entry.build.create", "entry.build.finalize", "entry.build.setpayload", "value.derived",
+                "entry.get.gen", "entry.get.ded", "entry.get.leg", "entry.init.cur", "entry.init.legacy", "entry.fused", "entry.set.constant", "entry.build.create", "entry.build.finalize", "entry.build.setpayload", "value.derived",
                 "probe.unaligned_placement"};
     e.real_components = {"libopen1722 + libopen1722custom objects built from /repo/src (working tree)", "call bindings generated from /repo/include at build time"};
     e.stub_components = {"callers (seeded histories)", "reference model: spec/fields.def + bit-at-a-time packer (spec/wire.h)"};
@@ -616,6 +636,15 @@ int main(int argc, char **argv) {
 #ifdef REC_VARIANT_GCC
     // second build: library and bindings compiled by gcc -O2 (the repository's default toolchain), no sanitizer in the library code
     e.real_components = {"libopen1722 + libopen1722custom objects built from /repo/src by gcc -O2", "call bindings generated from /repo/include at build time, compiled by gcc -O2"};
+    e.quick_runs = 7600;
+    e.thorough_runs = 380000;
+    e.quick_wall_cap = 60;
+    e.thorough_wall_cap = 500;
+#endif
+#ifdef REC_VARIANT_O0
+    // third build: no optimisation at all - what the repository's CMake produces when no build type is given. Locals live on the
+    // stack, so a value that is used before it is written reads whatever the previous calls left there.
+    e.real_components = {"libopen1722 + libopen1722custom objects built from /repo/src by gcc -O0", "call bindings generated from /repo/include at build time, compiled by gcc -O0"};
     e.quick_runs = 7600;
     e.thorough_runs = 380000;
     e.quick_wall_cap = 60;
